@@ -2,6 +2,7 @@
 use crate::codec::{canon_debug, hex_enc, Describe};
 use crate::transport::anyhow_kind;
 use std::fmt::Debug;
+use std::future::Future;
 use std::pin::Pin;
 use std::sync::{Arc, Mutex};
 use std::task::{Context, Poll};
@@ -22,6 +23,10 @@ pub type Log = Arc<Mutex<Vec<Ev>>>;
 /// "short read" mode of the recording transport: every read of the client returns at most this many bytes
 /// (0 = no limit). Set per operation (`seq@K`, `wf@K`); a correct client must behave identically.
 pub static MAX_READ: std::sync::atomic::AtomicUsize = std::sync::atomic::AtomicUsize::new(0);
+/// `seq@K@D`: D virtual seconds pass before every piece of at most K bytes is handed to the client — a packet that trickles in,
+/// with pauses INSIDE its header and body. The pause belongs to the connection, not to the read call: a client that gives a read up
+/// and starts another one does not start the pause again.
+pub static READ_PAUSE: std::sync::atomic::AtomicUsize = std::sync::atomic::AtomicUsize::new(0);
 
 pub fn push(log: &Log, ev: Ev) {
     let mut l = log.lock().unwrap();
@@ -49,12 +54,27 @@ pub fn render(log: &Log) -> String {
 pub struct Rec<S> {
     pub inner: S,
     pub log: Log,
+    pub nap: Option<Pin<Box<tokio::time::Sleep>>>,
+    pub napped: bool,
 }
 
 impl<S: AsyncRead + Unpin> AsyncRead for Rec<S> {
     fn poll_read(mut self: Pin<&mut Self>, cx: &mut Context<'_>, buf: &mut ReadBuf<'_>) -> Poll<std::io::Result<()>> {
         let before = buf.filled().len();
         let k = MAX_READ.load(std::sync::atomic::Ordering::Relaxed);
+        let d = READ_PAUSE.load(std::sync::atomic::Ordering::Relaxed);
+        if d > 0 && !self.napped {
+            if self.nap.is_none() {
+                self.nap = Some(Box::pin(tokio::time::sleep(std::time::Duration::from_secs(d as u64))));
+            }
+            match self.nap.as_mut().unwrap().as_mut().poll(cx) {
+                Poll::Pending => return Poll::Pending,
+                Poll::Ready(()) => {
+                    self.nap = None;
+                    self.napped = true;
+                }
+            }
+        }
         let r = if k > 0 && buf.remaining() > k {
             let mut tmp = vec![0u8; k];
             let mut rb = ReadBuf::new(&mut tmp);
@@ -70,6 +90,7 @@ impl<S: AsyncRead + Unpin> AsyncRead for Rec<S> {
             let n = buf.filled().len() - before;
             if n > 0 {
                 push(&self.log, Ev::R(n));
+                self.napped = false;
             }
         }
         r
@@ -151,7 +172,7 @@ where
         let (client, term) = tokio::io::duplex(1 << 22);
         let log: Log = Arc::new(Mutex::new(vec![]));
         let t = tokio::spawn(scripted_terminal(term, items));
-        let mut tr = zvt::io::PacketTransport { source: Rec { inner: client, log: log.clone() } };
+        let mut tr = zvt::io::PacketTransport { source: Rec { inner: client, log: log.clone(), nap: None, napped: false } };
         {
             let mut stream = S::into_stream(&input, &mut tr);
             loop {
